@@ -24,6 +24,7 @@ EXPLANATION = (
     "superstep is the scheduler's result; (R6) early start of a default-open gate's targets is granted only while that gate has never executed in "
     "this run (the test consults node_executions, not merely the absence of a decision). R4 also requires that a decision which is a single target name is compared by equality: a membership test on the decision is reachable only once an isinstance test established that it is a collection (for a str, `in` is substring containment). (R7) the controlling-gate relation that activation consults is computed from every gate's declared targets — the relation the gate-decides-first filter uses — not read back from graph edges (a control edge is omitted when another edge already links gate and target), and every gate kind contributes. R3 also requires that every ready gate takes part in the block (the only condition on the set of blocking gates is the node kind) and that activation consults the unfiltered list of declared controlling gates; (R8) every option a node factory/constructor accepts is used."
     " (R9) the cache key covers every gate attribute the gate executors consult (targets, fallback, multi_target, branch names), so a routing decision restored on a hit was made under this gate's own configuration."
+    " R2 also requires that every container type the multi-target validator accepts is one the activation test takes apart."
 )
 NOT_DECIDED = "The activation semantics over time: which decision sequence activates which target for a particular program and input."
 
@@ -269,7 +270,7 @@ def run(ctx) -> None:
 
     coll_types = {"list", "tuple", "set", "frozenset", "Sequence", "Collection", "Iterable"}
     tv, ta = _isinstance_types(vm, d_vm) & coll_types, _isinstance_types(act, d_act) & coll_types
-    rep.add("C03.R2", "decision-container-types-agree", tv == ta and bool(tv), vm.loc(), f"validation and activation both treat {sorted(tv)} as a collection of targets" if tv == ta and tv else f"the multi-target validator accepts {sorted(tv)} but the activation test takes apart {sorted(ta)} only: a decision of the other container type is stored as valid and then selects nothing (the selected branches never start)")
+    rep.add("C03.R2", "decision-container-types-agree", tv <= ta and bool(tv), vm.loc(), f"every container type validation accepts ({sorted(tv)}) is taken apart by activation ({sorted(ta)})" if tv <= ta and tv else f"the multi-target validator accepts {sorted(tv)} but the activation test takes apart {sorted(ta)} only: a decision of the other container type is stored as valid and then selects nothing (the selected branches never start)")
     ok = only_false(live_end) and only_false(live_none)
     rep.add("C03.R4", f"{act.qname}:END-None-activate-nothing", ok, act.loc(), "END and None decisions activate no node (decided before any membership test)" if ok else "an END or None decision can activate a node")
 
